@@ -107,6 +107,7 @@ struct rleg {
     int open;
     int n_rcv, n_snd;
     int64_t b_rcv, b_snd;
+    int64_t unflushed;       /* xcm.from_app_bytes - xcm.to_lower_bytes when the relay closed it */
 };
 struct rpair {
     struct rleg leg[2];      /* 0 = towards the client, 1 = towards the server */
@@ -272,10 +273,16 @@ int __wrap_xcm_close(struct xcm_socket *s)
     relay_point("R:close");
     int p, l;
     struct rleg *g = leg_of(s, &p, &l);
+    if (g) {
+        /* what XCM still holds of the data the relay's sends had accepted (read-only attribute access) */
+        int64_t fa = 0, tl = 0;
+        if (xcm_attr_get_int64(s, "xcm.from_app_bytes", &fa) >= 0 && xcm_attr_get_int64(s, "xcm.to_lower_bytes", &tl) >= 0)
+            g->unflushed = fa - tl;
+    }
     mc_api_begin("xcm_close", 1);
     int rc = __real_xcm_close(s);
     mc_api_end();
-    mc_observe("R %s close", legname(p, l));
+    mc_observe("R %s close%s", legname(p, l), g && g->unflushed > 0 ? " (with unflushed data)" : "");
     if (g)
         g->open = 0;
     g_relay_progress = 1;
@@ -1246,6 +1253,7 @@ static void final_checks(enum mc_end end)
                 struct rpair *rp = pair_of_conn(k);
                 int src = tx->is_server ? 1 : 0;
                 const char *where = "src-leg", *tp = src ? g_ls : g_lc;
+                int beyond = 0;
                 if (rp) {
                     int64_t acc = g_bytestream ? tx->bytes_sent_acc : tx->n_acc;
                     int64_t got = g_bytestream ? rp->leg[src].b_rcv : rp->leg[src].n_rcv;
@@ -1253,7 +1261,17 @@ static void final_checks(enum mc_end end)
                     if (got >= acc) {
                         where = fwd >= acc ? "dst-leg" : "in-relay";
                         tp = src ? g_lc : g_ls;
+                        /* everything passed on AND handed to the lower layer before the relay closed: whatever the
+                           receiver then failed to obtain was lost in its own stack (its own stalled writes meeting
+                           the close - C06's subject), exactly as it would be without a relay in between */
+                        if (fwd >= acc && rp->leg[1 - src].unflushed <= 0)
+                            beyond = 1;
                     }
+                }
+                if (beyond) {
+                    mc_info("loss-beyond-relay", "a receiver missed data that the relay had completely flushed to its leg before "
+                            "closing it (endpoint-side loss, not a relay verdict); legs %s", g_legs);
+                    continue;
                 }
                 char sig[160];
                 snprintf(sig, sizeof sig, "C20/close-before-all-%s/lost-at=%s/tp=%s", g_bytestream ? "bytes" : "messages", where, tp);
@@ -1263,7 +1281,7 @@ static void final_checks(enum mc_end end)
                              rx->eof_seen ? "xcm_receive returned 0" : "error ", rx->eof_seen ? "" : errname(rx->term_errno),
                              rx->n_rcv, (long long)rx->bytes_rcv, g_legs,
                              !strcmp(where, "src-leg") ? "the relay never obtained them from the closer's leg" :
-                             !strcmp(where, "dst-leg") ? "the relay's xcm_send accepted all of them on the other leg, which it then closed" :
+                             !strcmp(where, "dst-leg") ? "the relay's xcm_send accepted all of them on the other leg, which it closed while XCM still held unflushed data" :
                              "the relay obtained them but did not pass all of them on", rs);
             }
         }
